@@ -587,6 +587,8 @@ struct Gen {
     deadlines: Vec<u64>,
     /// ids whose response was seen on the wire (request completed)
     answered: Vec<u64>,
+    /// ids a cancel was injected for (never re-used: the cancel may be read just before the new request)
+    cancelled: Vec<u64>,
 }
 
 fn gen_op(rng: &mut Rng, sv: &Server, g: &mut Gen, p: &Params) -> Op {
@@ -620,7 +622,7 @@ fn gen_op(rng: &mut Rng, sv: &Server, g: &mut Gen, p: &Params) -> Op {
             // of a completed (answered) request.  An id is not re-used after its request was cancelled,
             // expired or abandoned: a stale buffered response could then answer the new request, which
             // is outside the properties' quantifiers (DESIGN.md, C04 scope note).
-            let mut reuse: Vec<u64> = sv.stable_ids(g.now);
+            let mut reuse: Vec<u64> = sv.stable_ids(g.now).into_iter().filter(|i| !g.cancelled.contains(i)).collect();
             reuse.extend(g.answered.iter().copied().filter(|i| !sv.live_ids().contains(i)));
             let id = if !reuse.is_empty() && rng.chance(1, 5) { *rng.pick(&reuse) } else { g.nreq * 3 };
             g.ids.push(id);
@@ -645,6 +647,7 @@ fn gen_op(rng: &mut Rng, sv: &Server, g: &mut Gen, p: &Params) -> Op {
         }
         1 => {
             let id = if rng.chance(1, 8) { 999 } else { *rng.pick(&g.ids) };
+            g.cancelled.push(id);
             Op::InjectCancel { id, tid: 300, span: 8500, sampled: false }
         }
         2 => Op::PollServer,
@@ -670,6 +673,8 @@ fn gen_op(rng: &mut Rng, sv: &Server, g: &mut Gen, p: &Params) -> Op {
                 *rng.pick(&[1u64, 250_000, 1_000_000, 7_500_000])
             };
             let step = step.max(1);
+            // stay below 2^35 ms of virtual time: beyond it an idle timer wheel's range is exhausted (known finding)
+            let step = if g.now + step > crate::cli::MAX_VIRTUAL_NS { 1_000_000 } else { step };
             g.now += step;
             Op::Advance(step)
         }
@@ -691,7 +696,7 @@ pub fn run_script(out: &mut Out, idx: u64, p: &Params, rng: &mut Rng, script: Op
     simt::take_log();
     let _sub = crate::cli::install_subscriber(p.sub);
     let mut sv = Server::new("s0", p.limit, p.resp, p.cap, p.coupled);
-    let mut g = Gen { now: 0, nreq: 0, ids: vec![], deadlines: vec![], answered: vec![] };
+    let mut g = Gen { now: 0, nreq: 0, ids: vec![], deadlines: vec![], answered: vec![], cancelled: vec![] };
     let mut i = 0usize;
     loop {
         let op = match script {
